@@ -214,6 +214,45 @@ def main(tier):
                 run.violation("vm-pool-term:differs-from-the-rule-with-its-parameters", {"source": src, "parameters": {"add_line": add, "pool": pool, "points": pts, "threshold": th,
                                                                                           "success_when": ">=" if ge else "<="},
                                                                                           "through_the_vm": a[:300], "exported_function": b[:200]})
+        # ---- a pool term inside the operand of another pool term: each is rolled with ITS OWN parameters (the inner one first, from the same
+        #      stream): the pool operand `(PaA…)aB…` and the add-line operand `Pa(QaB…)…`
+        nl, nm = [], []
+        for _ in range(120 if tier == "thorough" else 40):
+            def sfx():
+                pts, th, ge, txt = 10, 8, 1, ""
+                for _k in range(r.randint(0, 2)):
+                    kind = r.choice("kqm"); v = r.randint(2, 9); txt += kind + str(v)
+                    if kind == "m":
+                        pts = v
+                    else:
+                        th, ge = v, (1 if kind == "k" else 0)
+                return txt, pts, th, ge
+            p1, a1 = r.randint(3, 9), r.randint(6, 11)
+            s1, pts1, th1, ge1 = sfx()
+            a2 = r.randint(6, 11)
+            s2, pts2, th2, ge2 = sfx()
+            st = f"{r.getrandbits(128):032x}"
+            inner = f"{p1}a{a1}{s1}"
+            nl.append(f"runseq w,L30000 {st} {hx('(' + inner + ')a' + str(a2) + s2)}")
+            nl.append(f"wod {st} {a1} {p1} {pts1} {th1} {ge1} 0")
+            nm.append((f"({inner})a{a2}{s2}", a2, pts2, th2, ge2))
+        no = run.go_only("vm-nested-pool-terms", nl, go_timeout=60)
+        second = []
+        for i, (src, a2, pts2, th2, ge2) in enumerate(nm):
+            fb = no[2 * i + 1][1].split()
+            second.append(f"wod {fb[4]} {a2} {fb[0]} {pts2} {th2} {ge2} 0" if len(fb) >= 5 and fb[0].lstrip("-").isdigit() and int(fb[0]) >= 1 else None)
+        so = run.go_only("vm-nested-pool-terms-2", [x for x in second if x], go_timeout=60)
+        it = iter(so)
+        for i, (src, a2, pts2, th2, ge2) in enumerate(nm):
+            a = no[2 * i][1]
+            if second[i] is None:
+                continue
+            b = next(it)[1]
+            ma = _re_top.match(r"ok i(-?\d+) ", a)
+            fb = b.split()
+            run.nontriv(("nested-pool", src))
+            if not ma or len(fb) < 1 or ma.group(1) != fb[0]:
+                run.violation("vm-pool-term:nested-term-leaks-its-parameters", {"source": src, "through_the_vm": a[:300], "inner_then_outer_by_the_exported_function": [no[2 * i + 1][1][:160], b[:160]]})
         # ---- dice terms through the VM syntax: every annotated term of a sum must obey its own rule
         import re as _re
         progs = []
